@@ -229,6 +229,8 @@ def ref_step(desc, vals, pars, opts=None):
             raise Inadmissible(f"unknown origin kind {o['kind']!r}")
         # queue update  w+ = w + T (d - q_o)
         wn = ov["w"] + T * (ov["d"] - res.qo[oid])
+        if desc.get("user_engine_laws"):  # ... and its own queue update: a finite storage space
+            wn = min(wn, desc["user_engine_laws"]["storage"])
         if opts.get("positive_next_queue"):
             wn = max(0.0, wn)
         res.next[oid] = {"w": wn}
@@ -288,6 +290,8 @@ def ref_step(desc, vals, pars, opts=None):
                 return free
             scen = vals[d["id"]]["d"]
             br.append((site + ".max", _tie(scen, free, "free", "scen")))
+            if desc.get("user_engine_laws"):  # a user-defined engine's own congested-destination law (vf.workloads)
+                return 0.5 * (max(free, scen) + scen)
             return max(free, scen)
         out = outs[n]
         if not out:
